@@ -461,10 +461,7 @@ class EnumBitmap4(Sensor):
         self._labels: dict[int, str] = labels
 
     def read_value(self, data: ProtocolResponse) -> Any:
-        raise NotImplementedError()
-
-    def read(self, data: ProtocolResponse):
-        bits = read_bytes4_signed(data, self.offset)
+        bits = read_bytes4_signed(data)
         return decode_bitmap(bits if bits != -1 else 0, self._labels)
 
 
